@@ -73,7 +73,8 @@ class C07:
             "children) is run alone in a fresh process -> reference trace T(S) (every evaluation, value, lifecycle event and the final GlobalState). "
             "Then, each compared line by line with T(S): (a) process history - S after j in 1..6 other seeded scenarios were wired and run in the same "
             "process; (b) builder reuse - one GraphExecutorBuilder, make_executor() k in 2..4 times, each run to completion, including runs that fail "
-            "with an injected fault; (c) wall clock - stall/coarse-clock faults; (d) concurrency - 2-4 independent executors (S with copies of itself "
+            "with an injected fault, and (40% of the runs) with wiring, make_executor and run inside a GlobalContext whose live state receives every "
+            "run's final state; error captures carry seeded diagnostic options and S-with-other-options is part of the history; (c) wall clock - stall/coarse-clock faults; (d) concurrency - 2-4 independent executors (S with copies of itself "
             "and/or other scenarios; graphs wired beforehand, make_executor()+run()+release concurrent) on simulated threads pre-empted at every "
             "intercepted mutex operation and at every node evaluation under a seeded scheduler. non-trivial = S has >= 3 evaluations; distinct = "
             "distinct (S shape, variation parameters, interleaving hash)")
